@@ -10,6 +10,65 @@ open Beetswap.Proto
 `Generated.implMaxMessageSize` is what the source says. -/
 def maxMessageSize : Nat := 4 * 1024 * 1024
 
+/-! ### `check_nesting`: the structural pre-check of `Codec::decode`
+
+quick-protobuf does not check that a nested field ends within the message that contains it
+(the `overrun` class of `Proto`); `decode` therefore validates the nesting before it hands the
+frame to the parser. -/
+
+/-- `read_varint` of `message.rs`: at most 10 bytes, bits shifted past bit 63 vanish. -/
+def readVarintAux (i acc : Nat) : List Nat → Option (Nat × List Nat)
+  | [] => none
+  | b :: bs =>
+    if i ≥ 10 then none
+    else
+      let acc := (acc + (b % 128) * 2 ^ (7 * i)) % 2 ^ 64
+      if b < 128 then some (acc, bs) else readVarintAux (i + 1) acc bs
+
+def readVarint (bs : List Nat) : Option (Nat × List Nat) := readVarintAux 0 0 bs
+
+inductive Nesting where
+  | message | wantlist | leaf
+deriving Repr, DecidableEq
+
+/-- which length-delimited fields are messages themselves -/
+def nestedOf (n : Nesting) (tag : Nat) : Option Nesting :=
+  match n with
+  | .message => if tag = 10 then some .wantlist else if tag = 26 ∨ tag = 34 then some .leaf else none
+  | .wantlist => if tag = 10 then some .leaf else none
+  | .leaf => none
+
+/-- `check_nesting`: every field ends within the message, recursively. Fuel: every field consumes
+at least one byte; nested checks work on strictly shorter slices. -/
+def checkNesting (fuel : Nat) (bs : List Nat) (n : Nesting) : Bool :=
+  match fuel with
+  | 0 => false
+  | fuel + 1 =>
+    match bs with
+    | [] => true
+    | _ =>
+      match readVarint bs with
+      | none => false
+      | some (tag, rest) =>
+        let tag := tag % 2 ^ 32          -- quick-protobuf reads tags as 32 bit varints
+        match tag % 8 with
+        | 0 =>
+          match readVarint rest with
+          | some (_, rest) => checkNesting fuel rest n
+          | none => false
+        | 1 => if rest.length ≥ 8 then checkNesting fuel (rest.drop 8) n else false
+        | 5 => if rest.length ≥ 4 then checkNesting fuel (rest.drop 4) n else false
+        | 2 =>
+          match readVarint rest with
+          | none => false
+          | some (len, rest) =>
+            if len > rest.length then false
+            else
+              (match nestedOf n tag with
+               | some sub => checkNesting fuel (rest.take len) sub
+               | none => true) && checkNesting fuel (rest.drop len) n
+        | _ => false
+
 inductive DecRes where
   | ok (m : Message) (rest : List Nat)
   | needMore
@@ -28,6 +87,7 @@ def decode (buf : List Nat) : DecRes :=
     if (Varint.enc len).length ≠ buf.length - rest.length then .err
     else if len > maxMessageSize then .err
     else if rest.length < len then .needMore
+    else if !checkNesting (len + 1) (rest.take len) .message then .err
     else
       match parseMessage rest len with
       | .ok m _ _ => .ok m (rest.drop len)
